@@ -53,17 +53,19 @@ def cases(tier, seed):
     out = []
     for j in range(0, len(pairs), 25):
         out.append({"kind": "pairs", "pairs": pairs[j:j + 25], "seed": seed})
-    nlong = 200 if tier == "quick" else 5000
+    nlong = 200 if tier == "quick" else 20000
     for j in range(0, nlong, 10):
         hs = []
         for i in range(10):
             r = gen.rng_for(seed, PROP, "long", j + i)
             hs.append([r.choice(names) for _ in range(r.randint(4, 9))])
         out.append({"kind": "long", "histories": hs, "seed": seed})
-    ndyn = 60 if tier == "quick" else 1500
+    ndyn = 60 if tier == "quick" else 4000
     for j in range(0, ndyn, 10):
         out.append({"kind": "dynamic", "from": j, "count": 10, "seed": seed})
-    nshape = 40 if tier == "quick" else 400
+    for j in range(0, len(names), 6):
+        out.append({"kind": "self-history", "classes": names[j:j + 6], "seed": seed, "rounds": 1 if tier == "quick" else 6})
+    nshape = 40 if tier == "quick" else 1600
     for j in range(0, nshape, 8):
         out.append({"kind": "dynamic-shapes", "from": j, "count": 8, "seed": seed})
     for reg in ["ytk", "cidar", "ecoflex", "plant"]:
@@ -287,11 +289,36 @@ def execute(mat, ctx):
             got = in_child(lambda: mk_and_query(True))
             judge(ctx, seed, [gen.class_name(prime_with) if prime_with in gen.concrete_kit_classes() else prime_with.__name__],
                   "Dyn%d(%s,%s)%s" % (j, pb.__name__, rb.__name__, sig), got, base, extra="dynamic-subclass-defined-after-priming")
+    elif kind == "self-history":
+        # the same class on other records first: the verdict on record r must not depend on which records the class
+        # (its shared compiled pattern, any per-class state) has seen before.  Records: the probe set plus variants with a
+        # third recognition site before / after the structure (where a pattern can start at more than one offset).
+        for n in mat["classes"]:
+            Q = gen.class_by_name(n)
+            base_texts = probe_texts(seed, Q)
+            for rnd in range(mat["rounds"]):
+                rng = gen.rng_for(seed, PROP, "self", n, rnd)
+                site = Q.cutter.site
+                from ..util import rc as _rc
+                texts = list(base_texts)
+                inst = base_texts[0]
+                for _ in range(4):
+                    i = rng.randrange(len(inst))
+                    texts.append(inst[:i] + rng.choice([site, _rc(site)]) + inst[i:])
+                    texts.append(rot_left(texts[-1], rng.randrange(len(texts[-1]))))
+                rng.shuffle(texts)
+                alone = [in_child(lambda t=t: answer(seed, Q, [t]))[0] for t in texts]
+                got = in_child(lambda: {"answers": answer(seed, Q, texts), "stale": stale(Q)})
+                judge(ctx, seed, [n], n, got, alone, extra="same-class-validated-other-records-before")
+                got = in_child(lambda: {"answers": answer(seed, Q, texts[::-1])[::-1], "stale": stale(Q)})
+                judge(ctx, seed, [n], n, got, alone, extra="same-class-validated-other-records-before:reverse-order")
+        ctx.sample({"kind": "self-history", "classes": mat["classes"][:3], "records_per_class": 13}, cap=1)
     elif kind == "dynamic-shapes":
         # user-defined classes related to kit classes in the ways a shared cache could confuse:
         #  (a) "twin": same cutter and signature as a kit part but the other role (module <-> vector);
         #  (b) "empty": a subclass of a concrete kit part that adds nothing the pattern depends on (docstring / helper method only);
-        #  (c) "resigned": a subclass of a concrete kit part with another signature.
+        #  (c) "resigned": a subclass of a concrete kit part with another signature;
+        #  (d) "same-name": like (c) but keeping the parent's __name__ (class factories, `class YTKPart2(ytk.YTKPart2)`).
         # each is queried after priming a relative (generic ancestor, direct parent, twin) and compared with a child that queried it first;
         # the kit relative is queried after priming the dynamic class as well.
         from moclo.core.parts import AbstractPart
@@ -302,7 +329,7 @@ def execute(mat, ctx):
         for j in range(mat["from"], mat["from"] + mat["count"]):
             rng = gen.rng_for(seed, PROP, "shape", j)
             P = rng.choice(parts)
-            shape = ["twin", "empty", "resigned"][j % 3]
+            shape = ["twin", "empty", "resigned", "same-name"][j % 4]
             kit_role = next((b for b in P.__mro__[1:] if issubclass(b, (AbstractModule, AbstractVector)) and not issubclass(b, AbstractPart)
                              and b in gen.concrete_kit_classes()), None)
             if kit_role is None:
@@ -316,6 +343,9 @@ def execute(mat, ctx):
                     return type(str("Twin" + P.__name__), (partbase, other), {"signature": tuple(P.signature)})
                 if shape == "empty":
                     return type(str("Lab" + P.__name__), (P,), {"__doc__": "lab-specific alias", "label": lambda self: "x"})
+                if shape == "same-name":
+                    # a user class that keeps the name of the kit class it derives from, with another signature
+                    return type(str(P.__name__), (P,), {"signature": (P.signature[0], gen.rand_dna(gen.rng_for(seed, "sig", j), len(P.signature[1])))})
                 return type(str("Re" + P.__name__), (P,), {"signature": (gen.rand_dna(gen.rng_for(seed, "sig", j), len(P.signature[0])), P.signature[1])})
 
             def texts(D):
@@ -347,7 +377,7 @@ def execute(mat, ctx):
             base = in_child(lambda: run(False, True))["answers"]
             got = in_child(lambda: run(True, True))
             judge(ctx, seed, ["%s-of-%s" % (shape, P.__name__)], gen.class_name(P), got, base, extra="kit-class-queried-after-dynamic-%s" % shape)
-        ctx.sample({"kind": "dynamic-shapes", "shapes": ["twin", "empty", "resigned"], "example_parent": P.__name__}, cap=1)
+        ctx.sample({"kind": "dynamic-shapes", "shapes": ["twin", "empty", "resigned", "same-name"], "example_parent": P.__name__}, cap=1)
     elif kind == "crosscheck":
         # the fork baseline itself against real fresh interpreters
         for n in mat["classes"]:
